@@ -18,7 +18,7 @@ LEVEL_TEXT = ("For every decodable definition, families of payloads that agree /
               "bijection; with mapping off no hash may be set; a sample is recomputed in a subprocess with another PYTHONHASHSEED.")
 TECHNIQUE = "metamorphic / relational property over generated payload families (hash <-> key bijection) + cross-process differential"
 RULE = ("all decodable definitions (with and without primary-key fields) x base payload + variants {non-key fields re-drawn, one key field "
-        "re-drawn, other source / priority / destination / unit preferences / decoder instance}; oracle: bijection hash <-> (id, key raw "
+        "re-drawn, string key with one character appended, other source / priority / destination / unit preferences / decoder instance}, plus all definitions of each multi-definition PGN back to back on the same decoders; oracle: bijection hash <-> (id, key raw "
         "values) over the whole run, hash present iff network map on, subprocess agreement; non-trivial = pair differing in exactly one key "
         "field or only in non-key fields; distinct = (definition, payload pair)")
 ASSUMPTIONS = [
